@@ -262,6 +262,11 @@ class Lib:
                 return (ta / tbs) if isinstance(op, ast.FloorDiv) else (ta % tbs)
         if ctx.decide(tb == 0):
             raise self.raise_ext("ZeroDivisionError")
+        if isinstance(op, ast.Mod) and not self.e.feasible(ctx, tb < 0):
+            from . import settheory
+
+            ctx.assume(tb > 0)
+            return settheory.pmod(ta, tb)
         if self.e.feasible(ctx, tb < 0):
             # z3 div/mod are Euclidean; convert to floor semantics for a negative divisor
             q = z3.If(tb > 0, ta / tb, (-ta) / (-tb))
@@ -359,9 +364,18 @@ class Lib:
 
     # ------------------------------------------------------------------ comparisons
     def order(self, ctx, op, a, b):
+        if isinstance(a, V.Opaque) or isinstance(b, V.Opaque):
+            raise EngineLimit("ordering comparison with an unmodelled value")
         if isinstance(a, V.FractionV) or isinstance(b, V.FractionV):
-            ta = a.term if isinstance(a, V.FractionV) else V.Real.unwrap(a)
-            tb = b.term if isinstance(b, V.FractionV) else V.Real.unwrap(b)
+            def _fl(v):
+                if isinstance(v, V.FloatV):
+                    import fractions
+
+                    fr = fractions.Fraction(v.value)
+                    return z3.RealVal(str(fr.numerator)) / z3.RealVal(str(fr.denominator))
+                return v.term if isinstance(v, V.FractionV) else V.Real.unwrap(v)
+
+            ta, tb = _fl(a), _fl(b)
         elif isinstance(a, (int, bool)) and isinstance(b, (int, bool)):
             ta, tb = int(a), int(b)
         elif isinstance(a, V.FloatV) and isinstance(b, V.FloatV):
@@ -954,6 +968,12 @@ class Lib:
         if isinstance(factory, V.Builtin) and factory.name == "list":
             return V.GroupDict()
         raise EngineLimit("defaultdict with a factory other than list")
+
+    def bi_time_monotonic(self, ctx):
+        # ASSUMED: time.monotonic() returns some real number (wall time is not modelled)
+        return V.FractionV(ctx.fresh("monotonic", z3.RealSort()))
+
+    bi_monotonic = bi_time_monotonic
 
     def bi_functools_partial(self, ctx, fn, *args, **kwargs):
         return V.Partial(fn, args, kwargs)
